@@ -233,14 +233,28 @@ theorem sanitizeJoin_dir_base (d f : Text) (hf : cleanRel f = true) (hd : cleanR
     have hj : pathJoin2 d b = f := by
       simp only [pathJoin2, hne, ne_eq, not_false_eq_true, if_true]
       rw [← e, pathClean_cleanRel f hf]
-    unfold sanitizeJoin
+    have hts := trimSuffixSlash_cleanRel d hd
+    unfold sanitizeJoin isWithin
     simp only [hb, hj, pathClean_cleanRel d hd]
-    have : d.isPrefixOf f = true := by rw [e]; simp [List.isPrefixOf_iff_prefix]
-    simp [this]
+    have hpre : (d ++ ['/']).isPrefixOf f = true := by
+      rw [e]; simp [List.isPrefixOf_iff_prefix]
+    have hm : withSlash d = d ++ ['/'] := by
+      unfold withSlash
+      split
+      · next r hr =>
+        exfalso
+        unfold trimSuffixSlash at hts
+        rw [hr] at hts
+        have := congrArg List.length hts
+        have hl := congrArg List.length hr
+        simp at this hl
+        omega
+      · rfl
+    rw [hm, hpre]
+    simp
 
 /-- the ingredients of `sanitizeJoin_dir_base`, independent of how `sanitizeArchivePath` tests containment
-(`strings.HasPrefix(v, Clean(d))` in the model; `v == Clean(d) || HasPrefix(v, Clean(d)+"/")` is implied
-just the same): the join is the path, the directory is clean, the path is the directory, "/", a name -/
+(`v == Clean(d) || HasPrefix(v, Clean(d)+"/")`, `isWithin` in common.go and in the model): the join is the path, the directory is clean, the path is the directory, "/", a name -/
 theorem pathJoin2_dir_base (d f : Text) (hf : cleanRel f = true) (hd : cleanRel d = true) (h : d = pathDir f) :
     pathJoin2 d (pathBase f) = f ∧ pathClean d = d ∧ ∃ b, f = d ++ '/' :: b := by
   rcases cleanRel_cases f hf with ⟨_, hdir, _⟩ | ⟨d', b, _, _, e, hdir, hb⟩
